@@ -30,6 +30,7 @@ type vacCase struct {
 	bucket string
 	store  *fakes3.Store
 	epn    int
+	cache  int
 	log    []string
 	failed bool
 }
@@ -43,7 +44,7 @@ func (c *vacCase) fail(w string) {
 func (c *vacCase) mk(db *sql.DB, ro bool, client string, prep func(*fakes3.Client)) (string, error) {
 	name := "t" + sqlh.Uniq()
 	sqlh.NextClient(client, prep)
-	err := sqlh.Exec(db, sqlh.CreateSQL(sqlh.TableOpts{Name: name, Bucket: c.bucket, Prefix: "p", Columns: "k primary key, a", EntriesPerNode: c.epn, ReadOnly: ro}))
+	err := sqlh.Exec(db, sqlh.CreateSQL(sqlh.TableOpts{Name: name, Bucket: c.bucket, Prefix: "p", Columns: "k primary key, a", EntriesPerNode: c.epn, NodeCache: c.cache, ReadOnly: ro}))
 	sqlh.NextClient("", nil)
 	return name, err
 }
@@ -137,6 +138,16 @@ func danglingIn(store *fakes3.Store, prefixes ...string) []string {
 func (c *vacCase) run() {
 	defer sqlh.DropBucket(c.bucket)
 	nw := 1 + c.r.Intn(2)
+	if os.Getenv("VAC_NOCACHE") != "" {
+		c.cache = 0
+	}
+	// "cached return": one long-lived writer with a node cache whose history ends with an insert and its
+	// delete, a first vacuum between the two and a later one that purges the marker
+	cachedReturn := (c.cache > 0 || os.Getenv("VAC_NOCACHE") != "") && c.r.Chance(1, 2)
+	if cachedReturn {
+		nw = 1
+		c.st.Count("scenario_cached_return")
+	}
 	var dbs []*sql.DB
 	var tabs []string
 	for i := 0; i < nw; i++ {
@@ -213,9 +224,27 @@ func (c *vacCase) run() {
 		c.st.Count(what)
 		tick()
 	}
+	// sometimes the history ends with an insert and its delete on writer 0, and the cutoff is put between the
+	// two: the first vacuum then deletes what only the state before the insert needed, and the later vacuum
+	// (cutoff in the future) purges the marker and returns the tree to that very state
+	var between time.Time
+	if cachedReturn || c.r.Chance(1, 3) {
+		k := 400 + c.r.Intn(5)
+		sqlh.Exec(dbs[0], fmt.Sprintf(`insert into "%s" values(?,?)`, tabs[0]), k, "tmp")
+		tick()
+		between = marks[len(marks)-1]
+		sqlh.Exec(dbs[0], fmt.Sprintf(`delete from "%s" where k=?`, tabs[0]), k)
+		tick()
+		c.note("writer 0: insert then delete at the end of the history")
+		c.st.Count("history_ends_with_insert_delete")
+	}
 	// the vacuuming connection: an existing writer (refreshed) or a new connection opened now
 	vdb, vt := dbs[0], tabs[0]
-	if c.r.Bool() {
+	if nw == 1 && (cachedReturn || c.r.Chance(1, 2)) {
+		// the one writer vacuums as it is: its node cache (if any) has seen every node it ever stored
+		c.note("vacuum from the only writer, not refreshed")
+		c.st.Count("vacuum_by_unrefreshed_writer")
+	} else if c.r.Bool() {
 		vdb = sqlh.Open()
 		defer vdb.Close()
 		var err error
@@ -231,11 +260,14 @@ func (c *vacCase) run() {
 	}
 	tick()
 	var cutoff time.Time
-	switch c.r.Intn(6) {
-	case 0:
+	switch pick := c.r.Intn(6); {
+	case !between.IsZero() && (cachedReturn || pick < 4):
+		cutoff = between
+		c.st.Count("cutoff_between_last_insert_and_delete")
+	case pick == 0:
 		cutoff = time.Date(2000, 1, 1, 0, 0, 0, 0, time.UTC)
 		c.st.Count("cutoff_past")
-	case 1:
+	case pick == 1:
 		cutoff = time.Now().Add(time.Hour)
 		c.st.Count("cutoff_future")
 	default:
@@ -248,9 +280,19 @@ func (c *vacCase) run() {
 	snap := c.store.Snapshot()
 	cl := sqlh.LastClient()
 	_, m0 := cl.Counts()
+	if os.Getenv("VAC_TRACE") != "" {
+		fmt.Fprintln(os.Stderr, "BEFORE", entBefore, "cutoff", cutoff.UnixNano(), "rows", rowsBefore)
+		fmt.Fprintln(os.Stderr, "FULL", entriesFull(vt))
+		fmt.Fprintln(os.Stderr, "LIST", entriesList(vt))
+	}
 	if err := s3db.Vacuum(context.Background(), vt, cutoff); err != nil {
 		c.fail("vacuum fails: " + err.Error())
 		return
+	}
+	if os.Getenv("VAC_TRACE") != "" {
+		fmt.Fprintln(os.Stderr, "AFTER", entries(vt))
+		fmt.Fprintln(os.Stderr, "FULL", entriesFull(vt))
+		fmt.Fprintln(os.Stderr, "LIST", entriesList(vt))
 	}
 	_, m1 := cl.Counts()
 	total := m1 - m0
@@ -258,6 +300,16 @@ func (c *vacCase) run() {
 	c.st.Count(fmt.Sprintf("vacuum_mutations_%d", min(total, 20)/5*5))
 	check := func(stage string) bool {
 		if got := sqlh.QS(vdb, fmt.Sprintf(`select k,a from "%s" order by k`, vt)); got != rowsBefore {
+			// F42 (dependency): with a node cache, a tree that returns to an earlier shape resolves the old hash
+			// through a cached node object that a later insert modified in place — the connection holding the
+			// cache sees rows again that were inserted into that node afterwards (deleted since), while the
+			// bucket, and hence every other reader, is right
+			if c.cache > 0 && c.st.known("F42") && isSuperset(got, rowsBefore) {
+				if fr, err := c.freshRows(); err == nil && fr == rowsBefore {
+					c.st.Count("known_F42")
+					return false
+				}
+			}
 			c.fail(fmt.Sprintf("%s: rows through the vacuuming connection changed: %q -> %q", stage, rowsBefore, got))
 			return false
 		}
@@ -329,6 +381,18 @@ func (c *vacCase) run() {
 	}
 	if !check("after the repeated vacuum") {
 		return
+	}
+	// a later vacuum with a cutoff in the future purges every marker: the tree may return to a shape it had
+	// before, i.e. to nodes an earlier vacuum deleted — they must be stored again (F40: node cache)
+	if cutoff.Before(time.Now()) {
+		if err := s3db.Vacuum(context.Background(), vt, time.Now().Add(time.Hour)); err != nil {
+			c.fail("vacuum with a later cutoff fails: " + err.Error())
+			return
+		}
+		c.st.Count("second_vacuum_later_cutoff")
+		if !check("after a second vacuum with a cutoff in the future") {
+			return
+		}
 	}
 	// the table stays writable
 	if err := sqlh.Exec(vdb, fmt.Sprintf(`insert into "%s" values(?,?)`, vt), 9999, "after"); err != nil {
@@ -430,7 +494,7 @@ func vacCmd(args []string) int {
 	fs.Parse(args)
 	setKnown(*kn)
 	st := NewStats("vac", *seed)
-	st.Rule = "histories of 4-18 steps by 1-2 writers (inserts, deletes, insert-then-delete and update-and-back so that old and new versions share content-addressed nodes, delete-then-re-insert, multi-row transactions, merging refreshes; entries_per_node in {2,4,4096}), then s3db.Vacuum from an old or a new connection with a cutoff in the past, in the future, or at one of the instants recorded between the steps; checks: rows unchanged through the vacuuming and a fresh connection, no version object in root/current or root/merged reaches a missing node, exactly the delete markers older than the cutoff are gone and every other entry is byte-for-byte as before, future cutoff leaves no superseded version, a repeated vacuum changes nothing, the table stays writable, and EVERY crash point inside vacuum (restore, crash after k mutations, re-open); distinct = distinct history (all non-trivial)"
+	st.Rule = "histories of 4-18 steps by 1-2 writers (inserts, deletes, insert-then-delete and update-and-back so that old and new versions share content-addressed nodes, delete-then-re-insert, multi-row transactions, merging refreshes; entries_per_node in {2,4,4096}, node_cache_entries in {0,16,1000}), then s3db.Vacuum from an old or a new connection with a cutoff in the past, in the future, or at one of the instants recorded between the steps; checks: rows unchanged through the vacuuming and a fresh connection, no version object in root/current or root/merged reaches a missing node, exactly the delete markers older than the cutoff are gone and every other entry is byte-for-byte as before, future cutoff leaves no superseded version, a repeated vacuum changes nothing, a further vacuum with a cutoff in the future leaves rows and reachability intact, the table stays writable, every single storage fault inside vacuum with the same connection used afterwards, and EVERY crash point inside vacuum (restore, crash after k mutations, re-open); distinct = distinct history (all non-trivial)"
 	isChild, from, to := childRange()
 	if !isChild {
 		NewEmitter(*outp+".ops", *outp+".exp").Close()
@@ -444,7 +508,7 @@ func vacCmd(args []string) int {
 	for i := from; i < to; i++ {
 		r := root.Fork(i)
 		b, store := sqlh.Bucket()
-		c := &vacCase{st: st, r: r, id: fmt.Sprintf("vac-%d-%d", *seed, i), bucket: b, store: store, epn: gen.Pick(r, []int{2, 4, 4096})}
+		c := &vacCase{st: st, r: r, id: fmt.Sprintf("vac-%d-%d", *seed, i), bucket: b, store: store, epn: gen.Pick(r, []int{2, 4, 4096}), cache: gen.Pick(r, []int{0, 0, 16, 1000})}
 		progressLine(fmt.Sprintf("CASE %d", i))
 		c.run()
 		st.Cases++
@@ -478,4 +542,45 @@ func entriesFull(name string) map[string]int64 {
 		}
 	}
 	return out
+}
+
+func entriesList(name string) []string {
+	var out []string
+	vt := s3db.GetTable(name)
+	cur, err := vt.Tree.Root.Cursor(context.Background())
+	if err != nil {
+		return out
+	}
+	cur.Min(context.Background())
+	for {
+		k, v, ok := cur.Get()
+		if !ok {
+			break
+		}
+		row, _ := v.Value.(*v1proto.Row)
+		out = append(out, fmt.Sprintf("%v@%d/%d del=%v", k.(*s3db.Key).Value(), v.ModEpochNanos%1000000000, v.TombstoneSinceEpochNanos, row != nil && row.Deleted))
+		if cur.Forward(context.Background()) != nil {
+			break
+		}
+	}
+	return out
+}
+
+// isSuperset: every row of `small` (rows joined by " | ") occurs in `big`, and big has more
+func isSuperset(big, small string) bool {
+	have := map[string]bool{}
+	for _, r := range strings.Split(big, " | ") {
+		have[r] = true
+	}
+	n := 0
+	for _, r := range strings.Split(small, " | ") {
+		if r == "" {
+			continue
+		}
+		if !have[r] {
+			return false
+		}
+		n++
+	}
+	return len(have) > n
 }
